@@ -2,15 +2,54 @@
 # Regenerates MANIFEST.json from the table below (kept next to the checks so the two stay in step).
 import json, subprocess
 CHECKS = {
- "C01": ("fault_enumeration", "child-process isolation + recover(): every call must return",
+ "C01": ("fault_enumeration", "child-process isolation + recover(): every call must return; cut points x terminal reader behaviours enumerated per file",
    "For every corpus/generated file and natural entry point, every cut point of a dense prefix and every structure boundary is crossed with five terminal reader behaviours; structure-aware malformations and random bytes are added from a seeded list. The oracle is 'the call returned' (panic caught by recover, fatal error seen as worker death). Held on the executions produced, not a proof.",
    "Trusted: Go's recover()/exit status as the crash observer; walkers that find the structural fields; sample files capped at 96 KiB.", "3/C01"),
  "C02": ("exploration", "instrumented io.ReadSeeker (byte/seek/EOF-read counters) + per-call CPU-time watchdog (rusage)",
    "Every decode entry point is run over an instrumented reader on corpus files, structure-aware malformations, loop-targeted shapes and random inputs (up to 1 MiB thorough). The oracle compares the reader's counters with the linear bound and a CPU-time budget per call; 'terminates' is thereby restated as bounded progress.",
-   "Trusted: getrusage CPU accounting; the bound is judged on a full-delivery reader (short-read schedules inflate a buffered reader's request sizes and are exercised under C08 instead); reads issued at end of input deliver nothing and are bounded by count (len/8+512), not by len(p).", "3/C02"),
+   "Trusted: getrusage CPU accounting; the bound is judged on a full-delivery reader; reads issued at end of input deliver nothing and are bounded by count (len/8+512), not by len(p).", "3/C02"),
+ "C03": ("exploration", "reference-model monitor: generator-held logical record vs decoded Exif, field by field",
+   "A harness-owned TIFF writer serialises a random logical record in a random forward layout with foreign tags; the real decoders run on it from pristine state and every reported field (incl. accessor outputs) is compared with the expectation computed from the record per the Exif/TIFF specification.",
+   "Trusted: the harness's TIFF writer and reference semantics (appendix A of DESIGN.md); the library's own name->enum tables for camera models; domains restricted to well-formed, in-range values.", "3/C03"),
+ "C04": ("exploration", "metamorphic monitor over histories: pristine vs after-real-history vs poisoned pools (verif hooks), plus immutability re-observation",
+   "The same call is executed on pristine state, after a real history of other calls in the same process (GOMAXPROCS=1, GC off, so sync.Pool returns the same objects) and under poisoned pools; canonical observations must be identical. Returned Exif/XMP/preview values are re-observed after later calls.",
+   "Trusted: the verif hooks (add-only) that replace pool variables at quiescent points; poison contents are states a legal earlier decode can leave.", "3/C04"),
+ "C06": ("exploration", "differential + reference-model monitor across containers built by the harness",
+   "One generated Exif payload is embedded in TIFF, JPEG, PNG, CR3 and HEIF files written by the harness with random surroundings; every container's decode entry points must report the same fields as the bare TIFF and as the reference expectation, with the container's image type.",
+   "Trusted: the harness's container writers (JPEG segments, PNG chunks with CRCs, ISOBMFF boxes); CR3 stores the three directories as three TIFF blobs.", "3/C06"),
+ "C07": ("exploration", "paired differential monitor: II vs MM builds of the same record, layout and surroundings",
+   "Each record/layout is serialised twice from the same streams, once per byte order, embedded in all five containers and decoded from pristine state; observations and errors of the pair must be identical.",
+   "Trusted: the harness's writers produce pairs that differ in byte order only.", "3/C07"),
+ "C08": ("fault_enumeration", "metamorphic monitor: fixed list of chunk schedules (incl. data+EOF) enumerated per input vs in-memory reader",
+   "Every input is decoded over an in-memory reader and then over every schedule of a fixed list of short-read schedules (1 byte ... 4097, mixed cycles, data delivered together with io.EOF) with a working Seek; canonical observations must be identical.",
+   "Trusted: the instrumented reader implements the io.Reader contract (never returns 0, nil).", "3/C08"),
+ "C09": ("exploration", "exhaustive perturbation enumeration against an independent signature table; cross-entry agreement monitor",
+   "All single-byte perturbations of 31 canonical headers, suffix/truncation variants and seeded random/two-byte perturbations go through Buf, Scan, ScanBuf and ReadAt; agreement, prefix-only dependence, non-consumption, error mapping, soundness and completeness against the harness's own signature table are asserted.",
+   "Trusted: the harness's signature table (liberal form for soundness, documented standard form for completeness).", "3/C09"),
+ "C10": ("exploration", "reference-model monitor: generator-held segment list vs recording callbacks of ScanJPEG",
+   "Marker streams are generated with recorded offsets and payloads; recording callbacks implement the consumption behaviours the property quantifies over; callback order, header fields (absolute TIFF offset), readable bytes and the final error are compared with the record.",
+   "Trusted: the harness's JPEG writer; fill bytes and parameterless markers are not generated in the header area.", "3/C10"),
+ "C11": ("exploration", "position monitor on a harness-owned bufio.Reader + recording callbacks vs generator-held box tree",
+   "Random box trees (well-formed and with a child over/understating its size) are read through isobmff.Reader; the stream position after every top-level box and the bytes/headers seen by Exif, XMP and preview callbacks are compared with the tree.",
+   "Trusted: the harness's box writer; top-level boxes are well-formed in every case.", "3/C11"),
+ "C12": ("exploration", "exhaustive prefix enumeration against a naive search in the harness",
+   "Every prefix over the signature alphabet up to length 7 (10 thorough) and random prefixes around buffer-refill boundaries precede an II/MM header; offset, byte order, first-IFD offset, reader position and the ErrNoExif condition are compared with a naive search of the same bytes.",
+   "Trusted: the naive search; bufio.Reader arguments have at least 32 bytes of buffer.", "3/C12"),
+ "C13": ("exploration", "reference-model monitor: generator-held XMP record vs parse result, attribute vs element differential, length sweep",
+   "Records of supported properties are serialised by the harness in attribute, element and mixed form with style variation and unknown properties; parse results are compared with the record and with each other; one property's value length is swept over 1..1100 in both forms; over-long tokens must not yield a wrong value.",
+   "Trusted: the harness's XMP writer; values avoid XML-special characters; date/UUID forms restricted to those the package documents.", "3/C13"),
  "C14": ("exploration", "runtime.MemStats.TotalAlloc delta around each call in a single-goroutine worker; RLIMIT_AS back-stop",
    "Each call runs alone between two ReadMemStats; inputs are corpus files, malformations and size-field attacks aimed at every allocation site fed by a file-derived number. Refuted by a delta above 4 MiB + 16*len or an out-of-memory death of the worker.",
    "Trusted: TotalAlloc (heap only; stack growth not measured); harness allocations inside the call are within the 4 MiB constant.", "3/C14"),
+ "C15": ("exploration", "configuration differential in-process (default loggers saved/restored) + fd 1/2 size sampling around default-configuration calls",
+   "Every input is decoded with the default loggers while the worker's stdout/stderr file sizes are sampled, then under every level x writer kind; observations must equal the default run and no panic may occur.",
+   "Trusted: fstat on the worker's redirected fd 1/2; zerolog's own stderr report for failing writers is outside the default configuration.", "3/C15"),
+ "C16": ("exploration", "round-trip identities executed on the real methods over exhaustive 8/16-bit domains and seeded wide values; totality under recover()",
+   "MessagePack, text, JSON and binary forms of every value type are round-tripped (exhaustively for 8/16-bit domains, all 65536 ExposureBias encodings, all UUID text forms) and every decoder with an error result is fed hostile input under recover().",
+   "Trusted: encoding/json and tinylib/msgp runtime; the stated validity domains.", "3/C16"),
+ "C17": ("exploration", "exhaustive enumeration of enum domains against harness name tables under recover()",
+   "String/Extension/TagName/FromString/Identify* are called on every value of every exported enum and identifier type (incl. negative halves and IfdType x tag id) and compared with tables written from the doc comments and the value lists they cite.",
+   "Trusted: the harness's name tables.", "3/C17"),
 }
 NOT_APPLICABLE = []
 def main():
